@@ -462,6 +462,19 @@ impl<'a> VisitMut for OptMapInline<'a> {
     }
 }
 
+/// R12: closure parameter `_` → `_vx_unused` (Verus rejects wildcard closure parameters; pure renaming)
+struct WildClosure;
+impl VisitMut for WildClosure {
+    fn visit_expr_closure_mut(&mut self, c: &mut syn::ExprClosure) {
+        for inp in c.inputs.iter_mut() {
+            if let syn::Pat::Wild(_) = inp {
+                *inp = syn::parse_quote!(_vx_unused);
+            }
+        }
+        syn::visit_mut::visit_expr_closure_mut(self, c);
+    }
+}
+
 /// R3 (captured-by-mutable-reference variables of a lifted closure): `x` → `(*x)`
 struct DerefVars {
     names: Vec<String>,
@@ -809,6 +822,7 @@ fn emit_fn(ctx: &mut Ctx, d: &FnDir, out: &mut String) {
     }
 
     strip_attrs_block(&mut block);
+    WildClosure.visit_block_mut(&mut block);
     if let Some(names) = d.opts.get("derefs") {
         let mut dv = DerefVars { names: names.split(',').map(|x| x.trim().to_string()).collect(), count: 0 };
         dv.visit_block_mut(&mut block);
@@ -1299,6 +1313,28 @@ fn process_text(ctx: &mut Ctx, tpl: &str, out: &mut String, depth: usize) {
                         }
                     }
                     emit_item(ctx, &words[1], &words[2], &opts, out);
+                    i += 1;
+                }
+                "opcode" => {
+                    // //@ opcode <file> <NAME>: the `0xNN: NAME,` entry of the def_opcodes! table (macro-generated const)
+                    let (src, _) = ctx.load(&words[1]).clone();
+                    let name = &words[2];
+                    let mut found: Vec<String> = vec![];
+                    for l in src.lines() {
+                        let t = l.trim();
+                        if let Some((code, rest)) = t.split_once(':') {
+                            if rest.trim().trim_end_matches(',') == name.as_str() && code.trim().starts_with("0x") {
+                                found.push(code.trim().to_string());
+                            }
+                        }
+                    }
+                    if found.len() != 1 {
+                        die(&format!("lost anchor: opcode {} found {} times in {}", name, found.len(), words[1]));
+                    }
+                    let _ = writeln!(out, "//vx-begin item {}", name);
+                    let _ = writeln!(out, "pub const {}: u8 = {};", name, found[0]);
+                    let _ = writeln!(out, "//vx-end item {}", name);
+                    ctx.report.push(format!("{{\"kind\":\"item\",\"name\":{},\"file\":{},\"text\":{}}}", json_str(name), json_str(&words[1]), json_str(&format!("opcode table entry {}: {}", found[0], name))));
                     i += 1;
                 }
                 "implconst" => {
